@@ -148,7 +148,7 @@ def DIAG(**k):
 
 def syntax_quote_specs(timeout):
     out = []
-    sig, pre = "x: int, xs: List[Optional[int]]", ["len(xs) <= 3"]
+    sig, pre = "x: int, xs: List[Optional[int]]", ["len(xs) <= 3", "0 <= x <= 3", "all(e is None or 0 <= e <= 3 for e in xs)"]
     body = '''    r = seq_list(T1(x, llist.list(xs)))
     n = len(xs)
     if len(r) != 2 + n + 8:
